@@ -7,10 +7,15 @@
     symbolic execution of the handler; the theorem is an induction over repetitions.  The other
     productions of the construct grammar (DESIGN.md 6.3) are covered by the check: programs
     sampled from the whole grammar, lexed by implementation and model, must show no error and
-    the initial configuration at the end. *)
+    the initial configuration at the end.
+    For every macro-free text (release profile) [C12_macro_free_no_residue] proves the configuration
+    half of the statement: when the input is exhausted no checkpoint is live, the macro nesting level
+    is 0, and the mode stack is the open-code stack - or, if the text ends inside a double-quoted
+    string, that stack with the string-expression mode on top, which finalization then closes
+    (corollary of the C11 simulation). *)
 From Coq Require Import NArith List Bool.
 From SasLexer Require Import Gen.TokenType Gen.ErrorKind Gen.Channel Model.Base Model.Core Model.Helpers
-     Model.Lexer3 Proofs.SemiProgram.
+     Model.Lexer3 Spec.RefLex Proofs.SemiProgram Proofs.OcBase Proofs.OcWhole Proofs.OcAll Proofs.MacroFree.
 Import ListNotations.
 Open Scope N_scope.
 
@@ -37,3 +42,10 @@ Proof.
   destruct (default_semi_step F msep s ms r p b ps H1 H2 H3 H4) as (s' & Hr & Ho).
   exists s'. split; [exact Hr|]. unfold observe in Ho. inversion Ho. repeat split; assumption.
 Qed.
+
+Theorem C12_macro_free_no_residue : forall (msep : bool) (src : list char),
+  macro_free (body_of src) = true ->
+  let e := lr_end (lex (mkCfg false msep) src) in
+  s_cp e = None /\ s_mnl e = 0 /\ (s_modes e = [MDefault] \/ s_modes e = [MStringExpr true; MDefault]).
+Proof. exact mf_C12_macro_free_no_residue. Qed.
+Print Assumptions C12_macro_free_no_residue.
